@@ -188,6 +188,7 @@ type fnSummary struct {
 	resultEnt     string       // returns-locked: ownership state of the result on success ("B" bound, "N" placeholder)
 	setsEnt       [2]int       // setter helper: param indices (object, value); {-1,-1} if not a setter
 	releases      map[int]bool // helper releases the handle of this parameter and stores nil (B → N)
+	inline        bool         // acts on its caller's lock/table state (unlocks a parameter it did not lock, deletes table entries): interpreted inline at each call site
 }
 
 type tsViolation struct {
@@ -256,7 +257,8 @@ func (ts *TS) violate(rule, key string, pos token.Pos, reason string) {
 type tsCtx struct {
 	fn     *ssa.Function
 	fa     *FA
-	env    map[*ssa.FreeVar]ssa.Value // closure free variable → binding in the parent
+	env    map[*ssa.FreeVar]ssa.Value   // closure free variable → binding in the parent
+	penv   map[*ssa.Parameter]ssa.Value // inlined helper: parameter → argument in the parent
 	parent *tsCtx
 	entry  map[string]bool // tokens assumed held at entry (requires-held summaries)
 	rootFn *ssa.Function
@@ -302,8 +304,31 @@ func (ts *TS) tokOf(c *tsCtx, s *tsState, v ssa.Value) string {
 				return ts.tokOf(c.parent, s, b)
 			}
 		}
+	case *ssa.Parameter:
+		if c.penv != nil {
+			if b, ok := c.penv[x]; ok && c.parent != nil {
+				return ts.tokOf(c.parent, s, b)
+			}
+		}
 	}
 	return c.prefix + "sym:" + c.fa.Sym(v).K
+}
+
+// resolve follows inlined-helper parameter bindings to the value (and context) the caller sees.
+func (c *tsCtx) resolve(v ssa.Value) (ssa.Value, *tsCtx) {
+	for depth := 0; depth < 6; depth++ {
+		v = stripConv(v)
+		prm, ok := v.(*ssa.Parameter)
+		if !ok || c.penv == nil || c.parent == nil {
+			return v, c
+		}
+		b, ok := c.penv[prm]
+		if !ok {
+			return v, c
+		}
+		v, c = b, c.parent
+	}
+	return v, c
 }
 
 // cellOf: addr denotes a tracked cell (an Alloc holding a token pointer, possibly reached through a closure free variable).
@@ -737,6 +762,33 @@ func (ts *TS) call(c *tsCtx, s *tsState, call *ssa.Call, depth int) []*tsState {
 	if sum == nil {
 		return []*tsState{s}
 	}
+	if sum.inline && depth < 4 {
+		onStack := false
+		for pc := c; pc != nil; pc = pc.parent {
+			if pc.fn == f {
+				onStack = true
+			}
+		}
+		if !onStack {
+			cc := &tsCtx{fn: f, fa: ts.p.FA(f), penv: map[*ssa.Parameter]ssa.Value{}, parent: c, entry: c.entry, rootFn: c.rootFn, prefix: c.prefix + f.Name() + "/"}
+			for i, prm := range f.Params {
+				if i < len(call.Call.Args) {
+					cc.penv[prm] = call.Call.Args[i]
+				}
+			}
+			st := s.clone()
+			saved := st.defers
+			st.defers = nil
+			var out []*tsState
+			for _, fin := range ts.runBody(cc, st, depth+1) {
+				fin.s.defers = saved
+				out = append(out, fin.s)
+			}
+			if len(out) > 0 {
+				return out
+			}
+		}
+	}
 	for i := range sum.requiresHeld {
 		if i < len(call.Call.Args) {
 			arg := call.Call.Args[i]
@@ -974,6 +1026,8 @@ func (ts *TS) summary(f *ssa.Function) *fnSummary {
 	}
 	locks, unlocks := 0, 0
 	lockedParam := map[int]bool{}
+	unlockedParam := map[int]bool{}
+	deletesTable := false
 	sharedLock := false
 	touchesParam := map[int]bool{}
 	eachInstr(f, func(in ssa.Instruction) {
@@ -1002,7 +1056,16 @@ func (ts *TS) summary(f *ssa.Function) *fnSummary {
 					}
 				} else {
 					unlocks++
+					o := stripConv(owner)
+					for i, p := range f.Params {
+						if p == o {
+							unlockedParam[i] = true
+						}
+					}
 				}
+			}
+			if n == "(*sync.Map).Delete" || n == "(*sync.Map).CompareAndDelete" {
+				deletesTable = true
 			}
 			if g := staticCallee(x.Common()); g != nil && ts.p.InModule(g) && g != f {
 				gs := ts.summary(g)
@@ -1097,6 +1160,18 @@ func (ts *TS) summary(f *ssa.Function) *fnSummary {
 	}
 	if sharedLock && !sum.returnsLocked {
 		sum.acquiresTable = true
+	}
+	// helpers that act on their caller's lock/table state are interpreted inline where they are called
+	actsOnCaller := deletesTable
+	for i := range unlockedParam {
+		if !lockedParam[i] {
+			actsOnCaller = true
+		}
+	}
+	if actsOnCaller && !sum.returnsLocked && f.Parent() == nil && f.Object() != nil && !f.Object().Exported() {
+		if sites, exact := ts.p.staticCallSites(f); exact && len(sites) > 0 {
+			sum.inline = true
+		}
 	}
 	if ts.own {
 		ts.ownSummary(f, sum)
